@@ -60,6 +60,9 @@ def gen_case(rng, car):
         if rng.random() < 0.08: ax, kind = [], "empty"
         e = Op("OSum", [x], [ax])
         if len(ax) == 1 and rng.random() < 0.6: e.int_index = True; kind += "(int)"       # x.sum(k) with a bare int, k = 0 included
+        elif len(ax) >= 2 and rng.random() < 0.4:                                         # the same modes listed in descending / shuffled order
+            perm = list(reversed(ax)) if rng.random() < 0.5 else rng.sample(ax, len(ax))
+            if perm != ax: e.impl_axes = perm; kind += "(unsorted list)"
         return e, "sum:" + kind, None
     if r < 0.85:
         return Op("OSum", [gen_ttm(rng, cplx)]), "sum-all-ttm", None
@@ -68,6 +71,7 @@ def gen_case(rng, car):
         ax, kind = subset(rng, len(A.cores))
         e = Op("OSum", [A], [ax, ax + [len(A.cores) + i for i in ax]])
         if len(ax) == 1 and rng.random() < 0.6: e.int_index = True; kind += "(int)"
+        elif len(ax) >= 2 and rng.random() < 0.4: e.impl_axes = list(reversed(ax)); kind += "(unsorted list)"
         return e, "sum-ttm:" + kind, None
     A = gen_ttm(rng, cplx)
     x = gen_tt(rng, cplx, N=[c.shape[1] for c in A.cores], rmax=2)
